@@ -44,7 +44,7 @@ class Scenario:
     """threads: list of op lists; init_count handles are handed out one per thread (threads listed in
     `spawned` get theirs from a clone performed by their parent instead)."""
 
-    def __init__(s, templates, threads, spawned=None, name=""):
+    def __init__(s, templates, threads, spawned=None, name="", joins=None):
         s.t = templates
         s.name = name
         s.evs = []
@@ -54,6 +54,9 @@ class Scenario:
         s.ninst = 0
         s.threads = threads
         s.spawned = spawned or {}
+        # joins: child -> (parent, op index): every event of the child happens-before the parent's
+        # events from that op on (a scoped thread that borrowed the parent's handle and was joined)
+        s.joins = joins or {}
         s.first_ev = {}
         s.build()
 
@@ -150,10 +153,19 @@ class Scenario:
         pending_spawn = []
         for th, prog in enumerate(s.threads):
             # branches: (guard, handles this thread holds on the shared allocation)
-            branches = [(BoolVal(True), 1)]
+            branches = [(BoolVal(True), 0 if th in s.joins else 1)]
             for opidx, op in enumerate(prog):
                 nb = []
                 for g, h in branches:
+                    if op == "bread":      # read through the parent's handle (scoped borrow)
+                        s.ev(th, "Rna", "data", "na", g, label="deref.read(borrowed)", opidx=opidx)
+                        nb.append((g, h))
+                        continue
+                    if op == "bclone":     # clone through the parent's handle (scoped borrow)
+                        for guard, p in s.inst(th, "clone", g, opidx):
+                            if p["result"][0] == "ret":
+                                nb.append((guard, h + 1))
+                        continue
                     if h == 0:
                         nb.append((g, h))
                         continue
@@ -243,6 +255,12 @@ class Scenario:
                 if a.th == evs[pa].th and a.i <= pa:
                     for c in evs:
                         if c.th == child:
+                            sbm[a.i][c.i] = True
+        for child, (par, at) in s.joins.items():
+            for a in evs:
+                if a.th == child:
+                    for c in evs:
+                        if c.th == par and c.opidx >= at:
                             sbm[a.i][c.i] = True
         cw = [e for e in evs if e.loc == "cnt" and e.is_write()]
         cr = [e for e in evs if e.loc == "cnt" and e.is_read()]
@@ -394,7 +412,8 @@ class Scenario:
         return S, viol, dict(mo=mo, rf=rf, HB=HB, ex=ex, sbm=sbm, sw=sw)
 
     def describe(s):
-        return {"name": s.name, "threads": s.threads, "spawned": {str(k): list(v) for k, v in s.spawned.items()}, "events": len(s.evs)}
+        return {"name": s.name, "threads": s.threads, "spawned": {str(k): list(v) for k, v in s.spawned.items()},
+                "joins": {str(k): list(v) for k, v in s.joins.items()}, "events": len(s.evs)}
 
 
 def decide(sc, timeout_ms=120000):
